@@ -535,6 +535,8 @@ class Interp:
         return self.attr(base, e.attr, e, mod)
 
     def attr(self, base, attr, node, mod):
+        if base is None:
+            self.on_raise(Sym("exc", "AttributeError", f"'NoneType' object has no attribute '{attr}'"), node)
         if isinstance(base, Super):
             mro = self.repo.mro(base.obj.cls) if base.obj.cls is not None else []
             if base.cls in mro:
